@@ -130,6 +130,14 @@ def run(rep, tier, rng):
             # unequal lengths are rejected
             if d > 1:
                 bind_case(algs.rand_vec(rng, d), algs.rand_vec(rng, d - 1), "unequal")
+        # every pair of unequal lengths is rejected (incl. lengths that reshape into each other's blocks)
+        N = 12 if quick else 30
+        for la in range(1, N + 1):
+            for lb in range(1, N + 1):
+                if la != lb and (la <= 6 or lb <= 6 or la % lb == 0 or lb % la == 0 or (la * lb) % 4 == 0 or rng.random() < 0.2):
+                    bind_case(algs.rand_vec(rng, la), algs.rand_vec(rng, lb), "unequal-grid")
+        for la, lb in ((2, 1), (8, 16), (16, 8), (4, 16), (16, 4), (6, 9), (9, 6), (3, 9), (9, 3), (32, 16), (8, 4)):
+            bind_case(algs.rand_vec(rng, la), algs.rand_vec(rng, lb), "unequal-grid")
         # invalid dimensionalities for the square algebras
         if al != "AHrr":
             for d in (2, 3, 5, 8, 12, 15):
